@@ -91,7 +91,7 @@ def run_case(case):
                 args[p] = np.array(r.randint(-5, 5)) if r.random() < 0.6 else np.array([r.randint(-5, 5) for _ in range(r.randint(1, 3))])
         out["sig"] = f"leaf={leaf_len} productmap n={n} kinds={''.join(k_[3] for k_ in kinds)} mapped={k} out={outkind} sigorder={[ps.index(v) for v in vars_] == sorted(ps.index(v) for v in vars_)}"
         try:
-            res = productmap(f, vars_)(**{p: jnp.asarray(v) for p, v in args.items()})
+            res = _call_twice(r, productmap(f, vars_), {p: jnp.asarray(v) for p, v in args.items()})
         except Exception as e:  # noqa: BLE001
             vs.append({"clause": "productmap evaluates", "detail": f"def f({sig}) variables {vars_}: {impl_site(e)}: {str(e)[:200]}", "key": "C19:eval"})
             return out
@@ -122,7 +122,7 @@ def run_case(case):
             cw = "only_kwargs"
         try:
             g = vmap_1d(f, vars_, callable_with=cw)
-            res = g(**{p: jnp.asarray(v) for p, v in args.items()}) if cw == "only_kwargs" else g(*[jnp.asarray(args[p]) for p in ps])
+            res = _call_twice(r, g, {p: jnp.asarray(v) for p, v in args.items()}) if cw == "only_kwargs" else g(*[jnp.asarray(args[p]) for p in ps])
         except Exception as e:  # noqa: BLE001
             vs.append({"clause": "vmap_1d evaluates", "detail": f"def f({sig}) variables {vars_} {cw}: {impl_site(e)}: {str(e)[:200]}", "key": "C19:eval"})
             return out
@@ -158,7 +158,7 @@ def run_case(case):
                 args[p] = np.array(r.randint(-5, 5))
         out["sig"] = f"leaf={leaf_len} spacemap n={n} kinds={''.join(k_[3] for k_ in kinds)} dense={len(dense)} sparse={len(sparse)} dense_first={dense_first} out={outkind}"
         try:
-            res = spacemap(f, dense_vars=dense, sparse_vars=sparse, put_dense_first=dense_first)(**{p: jnp.asarray(v) for p, v in args.items()})
+            res = _call_twice(r, spacemap(f, dense_vars=dense, sparse_vars=sparse, put_dense_first=dense_first), {p: jnp.asarray(v) for p, v in args.items()})
         except Exception as e:  # noqa: BLE001
             vs.append({"clause": "spacemap evaluates", "detail": f"def f({sig}) dense {dense} sparse {sparse}: {impl_site(e)}: {str(e)[:200]}", "key": "C19:eval"})
             return out
@@ -200,6 +200,15 @@ def run_case(case):
             break
     out["sample"] = {"signature": f"def f({sig})", "dispatcher": req["kind"], "mapped": req.get("vars") or {"dense": req.get("dense"), "sparse": req.get("sparse")}, "output": outkind, "result_shape": list(np.asarray(comps_impl[0]).shape)}
     return out
+
+
+def _call_twice(r, g, kwargs):
+    """The mapped function is called twice on the same object, first with the keywords in a shuffled order; the result of
+    the *second* call (keywords in signature order) is what the oracle sees, so state kept between calls shows up."""
+    items = list(kwargs.items())
+    r.shuffle(items)
+    g(**dict(items))
+    return g(**kwargs)
 
 
 def run_kwargs(r, out):
@@ -257,6 +266,26 @@ def run_kwargs(r, out):
     if complete_valid:
         if got != vals:
             vs.append({"clause": "every value is bound to the parameter of the same name, whatever the order of the keywords", "detail": f"{desc}: {got}, expected {vals}", "key": "C19:bind"})
+        else:
+            # history on the *same* wrapper object: further calls with the keywords in other orders and other values
+            for rep in range(2):
+                vals2 = {p: r.randint(100, 199) for p in ps}
+                if wrapper == "allow_only_kwargs":
+                    a2, kw2 = [], list(vals2.items())
+                else:
+                    k2 = r.randint(0, n)
+                    a2, kw2 = [vals2[p] for p in ps[:k2]], [(p, vals2[p]) for p in ps[k2:]]
+                r.shuffle(kw2)
+                try:
+                    got2 = w(*a2, **dict(kw2))
+                except Exception as e:  # noqa: BLE001
+                    got2 = f"{type(e).__name__}"
+                out["evals"] += 1
+                if got2 != vals2:
+                    vs.append({"clause": "every value is bound to the parameter of the same name, whatever the order of the keywords",
+                               "detail": f"{desc}, then on the same wrapper (*{a2}, **{dict(kw2)}): {got2}, expected {vals2}", "key": "C19:bind"})
+                    break
+            out["hist"]["same_wrapper_called_again"] = 1
     elif pattern in ("missing", "unexpected", "positional", "too-many", "duplicates-positional"):
         if isinstance(got, dict):
             vs.append({"clause": "missing or unexpected arguments are rejected", "detail": f"{desc} ({pattern}): accepted and returned {got}", "key": f"C19:accept-{pattern}"})
